@@ -13,9 +13,11 @@ GNext == \/ \E r \in LRegs, k \in 1..Len(IPool) : IfftI(r, k) /\ Op(R3("IfftI", 
          \/ \E r \in LRegs, v \in {1, Q \div 2, Q - 1} : (SetC(r, v) /\ Op(R3("SetC", r, v, 0))) \/ (AddC(r, v) /\ Op(R3("AddC", r, v, 0)))
          \/ \E d \in LRegs, s \in LRegs : AddTo(d, s) /\ Op(R3("AddTo", d, s, 0))
          \/ \E d \in LRegs, a \in LRegs, b \in LRegs :
-               \/ (d # a /\ d # b /\ Mul(d, a, b) /\ Op(R3("Mul", d, a, b)))
-               \/ (d # a /\ d # b /\ AddMul(d, a, b) /\ Op(R3("AddMul", d, a, b)))
-               \/ (d # a /\ d # b /\ SubMul(d, a, b) /\ Op(R3("SubMul", d, a, b)))
+               \* the destination may be one of the operands (the products are coefficient-wise in the Lagrange domain: every back-end as pinned computes
+               \* them from the old contents); a = b cannot happen (one is an integer image, the other a torus image)
+               \/ (Mul(d, a, b) /\ Op(R3("Mul", d, a, b)))
+               \/ (AddMul(d, a, b) /\ Op(R3("AddMul", d, a, b)))
+               \/ (SubMul(d, a, b) /\ Op(R3("SubMul", d, a, b)))
          \/ \E r \in LRegs : CanFft(r) /\ lag[r].kind = "torus" /\ UNCHANGED lag /\ Op(R3("Fft", r, 0, 0))
 GInit == Init /\ hist = <<>>
 GSpec == GInit /\ [][GNext]_<<lag, hist>>
